@@ -483,7 +483,7 @@ class C18(Prop):
         tie_values_differ = rng.random() < 0.12
         seeds = []
         by_key = {}
-        big = tier == 'thorough' and rng.random() < 0.003
+        big = tier == 'thorough' and rng.random() < 0.0005
         nseeds = rng.choice([0, 1, 2, 3, 4, 5, 6, 8, 12]) if not big else 1003
         for k in range(nseeds):
             p = main if rng.random() < 0.75 else rng.choice(names)
@@ -515,7 +515,7 @@ class C18(Prop):
                         tss.append(self._ts(rng, grid))
                 tss = [max(t, 0) for t in tss]
                 recent_ts = (recent_ts + tss)[-8:]
-                if rng.random() < (0.004 if tier == 'quick' else 0.008):     # more timestamps than any limit
+                if rng.random() < (0.004 if tier == 'quick' else 0.002):     # more timestamps than any limit
                     tss = [max(self._ts(rng, grid) + rng.choice([0, 0, 1, -1, 2]), 0) for _ in range(rng.randint(1001, 1500))]
                 q = {'timestamps': ','.join(str(t) for t in tss)}
                 if rng.random() < 0.3:                   # the range arguments are validated but otherwise ignored
